@@ -18,6 +18,11 @@ pub const DEFAULT_SEED: u64 = 20260923;
 pub fn verif_dir() -> PathBuf {
     PathBuf::from(std::env::var("VERIF_DIR").unwrap_or_else(|_| "/verif".into()))
 }
+/// where evidence/ and replays/ are written: /verif, or VERIF_OUT for sensitivity runs against
+/// scratch copies (so that they never overwrite the evidence of the real tree)
+pub fn out_dir() -> PathBuf {
+    std::env::var("VERIF_OUT").map(PathBuf::from).unwrap_or_else(|_| verif_dir())
+}
 
 #[derive(Clone, Debug)]
 pub struct Known {
@@ -275,7 +280,7 @@ pub fn run_check(spec: &CheckSpec, tier: &str, seed: u64) -> i32 {
     // 4. minimise and report new violations
     let mut violation_lines = 0;
     let mut harness_error = false;
-    let replays = verif_dir().join("replays");
+    let replays = out_dir().join("replays");
     let max_groups = 4;
     for (gi, (key, hits)) in fresh.iter().enumerate() {
         let (profile, idx, v) = &hits[0];
@@ -386,7 +391,7 @@ pub fn run_check(spec: &CheckSpec, tier: &str, seed: u64) -> i32 {
         "wall_s": wall,
         "violations": violation_lines,
     });
-    let evdir = verif_dir().join("evidence");
+    let evdir = out_dir().join("evidence");
     let _ = std::fs::create_dir_all(&evdir);
     let evpath = std::env::var("VERIF_EVIDENCE").map(PathBuf::from).unwrap_or_else(|_| evdir.join(format!("{}.json", spec.property)));
     std::fs::write(&evpath, serde_json::to_string_pretty(&ev).unwrap()).expect("write evidence");
